@@ -72,7 +72,7 @@ rc=$?
 # keep stdout small: goroutine dumps of a QUIT-killed run are cut to the head
 head -c 400000 "$BIN/out.log"
 if [ $rc -eq 124 ] || [ $rc -eq 137 ] || [ $rc -eq 131 ]; then
-  echo "INCONCLUSIVE property=$PROP: outer wall-clock watchdog (${WD}s) fired"
+  echo "INCONCLUSIVE property=$PROP: outer wall-clock watchdog (${WD}s) fired, or the monitor process was killed from outside (exit $rc; 137 without a ${WD}s wait is the kernel's out-of-memory killer)"
   exit 2
 fi
 exit $rc
